@@ -207,6 +207,11 @@ func Counter.set
   -- subscriber in the order of the changes (a forwarding subscriber - the worker-pool group counters - would otherwise
   -- see a decrement before the increment it belongs to)
   ghost before call Counter.notifySubscribers: assert held(c.valueMutex)
+  -- the result is the value the counter had when the lock was taken (Set picks the condition variable to broadcast by it),
+  -- and the counter holds the new value when the lock is released
+  ghost local v0 Int
+  ghost after acquire: v0 = c.value
+  ghost before unlock: assert oldValue == v0 && c.value == newValue
   ghost before unlock: owe valueIncreasedCond if oldValue < newValue
   ghost before unlock: owe valueDecreasedCond if oldValue > newValue
   ghost before unlock: c.lateInc = (oldValue < newValue ? 0 : c.lateInc)
@@ -226,6 +231,9 @@ func Counter.update
   requires c != nil && unlocked(c.valueMutex)
   modifies monitor(c)
   ghost before call Counter.notifySubscribers: assert held(c.valueMutex)
+  ghost local v0 Int
+  ghost after acquire: v0 = c.value
+  ghost before unlock: assert newValue == v0 + delta && c.value == newValue
   ghost before unlock: owe valueIncreasedCond if delta >= 1
   ghost before unlock: owe valueDecreasedCond if delta <= 0 - 1
   ghost before unlock: c.lateInc = (delta >= 1 ? 0 : c.lateInc)
